@@ -84,6 +84,7 @@ type Rec struct {
 	Followed bool     `json:"followed"`
 	HErr     bool     `json:"herr"`
 	Note     string   `json:"note"`
+	Scen     string   `json:"scen"` // final records: the scenario (for replay)
 }
 
 func ids(reg *world.Registry, om iface.IPFSLogOrderedEntries) []int {
@@ -333,6 +334,9 @@ func RunScenario(ctx context.Context, cfg *ldriver.Config, pool *world.Pool, reg
 		} else {
 			fin.Pre, fin.Post = emptyStates(len(r.Logs)), emptyStates(len(r.Logs))
 		}
+	}
+	if raw, err := json.Marshal(sc); err == nil {
+		fin.Scen = string(raw)
 	}
 	recs = append(recs, fin)
 	return recs, nil
